@@ -8,6 +8,8 @@ void runEpisode(const nlohmann::json& ep)
         runEnc(ep);
     else if (comp == "dec")
         runDec(ep);
+    else if (comp == "obj")
+        runObj(ep);
     else
     {
         Out o;
